@@ -38,7 +38,11 @@ Families == <<
   F("list_items", "rep", "", "- a\n", "", "", ""), F("ordered_items", "rep", "", "1. a\n", "", "", ""),
   F("indent_nest", "indent", "", "- a\n", "", "", ""), F("blank_lines", "rep", "a", "\n", "b", "", ""),
   F("html_blocks", "rep", "", "<div>\na\n</div>\n\n", "", "", ""), R("quotes_typographic", "\"a' ", "b", ""),
-  R("dashes", "-- ", "a", ""), R("parens", "(", "a", ")")
+  R("dashes", "-- ", "a", ""), R("parens", "(", "a", ")"),
+  \* blocks separated by white-space-only lines that are indented like code (editors leave them behind)
+  F("refdefs_indented_blank_sep", "rep", "", "[a]: /u\n    \n", "", "", ""), F("refdefs_tab_blank_sep", "rep", "", "[a]: /u 't'\n\t\n", "", "", ""),
+  F("paragraphs_indented_blank_sep", "rep", "", "a\n     \n", "", "", ""), F("list_items_indented_blank_sep", "rep", "", "- a\n      \n", "", "", ""),
+  F("quote_indented_blank_lines", "rep", "", "> a\n>      \n", "", "", ""), F("headings_blank_sep", "rep", "", "a\n    \n---\n", "", "", "")
 >>
 ASSUME PrintT(ToJson(Families))
 =============================================================================
